@@ -42,12 +42,12 @@ def endedFinalised (s : St) : Bool := match taskTh s with | some t => t.status =
 /-- everything C11 asks of one state of a system with a generic waiting task -/
 def goodWaiter (sys : Sys) (s : St) : Bool :=
   !lostWakeup sys s && !anyCrashed s && stopSetsFlag sys s && noParkAfterStop sys s && exitOnlyByStop s &&
-  releasedB sys endedByStop s
+  releasedB sys endedByStop s && progress sys s
 
 /-- the same for the loop task -/
 def goodLoop (sys : Sys) (s : St) : Bool :=
   !lostWakeup sys s && !anyCrashed s && stopSetsFlag sys s && noParkAfterStop sys s && loopExit s &&
-  releasedB sys endedFinalised s
+  releasedB sys endedFinalised s && progress sys s
 
 /-! ## per-system obligations — re-evaluated by the kernel whenever `Gen/SyncProgs.lean` changes -/
 
@@ -81,17 +81,17 @@ theorem loop_good : ∀ s, Reach sysLoop s → goodLoop sysLoop s = true := cert
 
 private theorem gw {sys : Sys} {s : St} (h : goodWaiter sys s = true) :
     lostWakeup sys s = false ∧ anyCrashed s = false ∧ stopSetsFlag sys s = true ∧ noParkAfterStop sys s = true ∧
-    exitOnlyByStop s = true ∧ releasedB sys endedByStop s = true := by
+    exitOnlyByStop s = true ∧ releasedB sys endedByStop s = true ∧ progress sys s = true := by
   simp only [goodWaiter, Bool.and_eq_true, Bool.not_eq_true'] at h
-  obtain ⟨⟨⟨⟨⟨a, b⟩, c⟩, d⟩, e⟩, f⟩ := h
-  exact ⟨a, b, c, d, e, f⟩
+  obtain ⟨⟨⟨⟨⟨⟨a, b⟩, c⟩, d⟩, e⟩, f⟩, g⟩ := h
+  exact ⟨a, b, c, d, e, f, g⟩
 
 private theorem gl {s : St} (h : goodLoop sysLoop s = true) :
     lostWakeup sysLoop s = false ∧ anyCrashed s = false ∧ stopSetsFlag sysLoop s = true ∧ noParkAfterStop sysLoop s = true ∧
-    loopExit s = true ∧ releasedB sysLoop endedFinalised s = true := by
+    loopExit s = true ∧ releasedB sysLoop endedFinalised s = true ∧ progress sysLoop s = true := by
   simp only [goodLoop, Bool.and_eq_true, Bool.not_eq_true'] at h
-  obtain ⟨⟨⟨⟨⟨a, b⟩, c⟩, d⟩, e⟩, f⟩ := h
-  exact ⟨a, b, c, d, e, f⟩
+  obtain ⟨⟨⟨⟨⟨⟨a, b⟩, c⟩, d⟩, e⟩, f⟩, g⟩ := h
+  exact ⟨a, b, c, d, e, f, g⟩
 
 /-! ## the property -/
 
@@ -127,6 +127,23 @@ theorem no_thread_error_and_flag_set {sys : Sys} (h : sys ∈ sysLoop :: waiterS
   have := key.2
   simp only [stopSetsFlag, hd, Bool.not_true, Bool.false_or] at this
   exact this
+
+/-- **No deadlock**: as long as the task thread has not ended some thread can take a step (in particular the stop request
+    never blocks for ever on a lock the waiting task holds, and vice versa). -/
+theorem no_deadlock {sys : Sys} (h : sys ∈ sysLoop :: waiterSystems) :
+    ∀ s, Reach sys s → (∀ t, taskTh s = some t → t.finished = false) → succs sys s ≠ [] := by
+  intro s hs hf
+  simp only [List.mem_cons] at h
+  have key : progress sys s = true := by
+    rcases h with rfl | h
+    · exact (gl (loop_good s hs)).2.2.2.2.2.2
+    · exact (gw (waiter_good (by simpa [waiterSystems] using h) s hs)).2.2.2.2.2.2
+  simp only [progress, Bool.or_eq_true, Bool.not_eq_true', List.isEmpty_eq_false_iff] at key
+  rcases key with k | k
+  · cases ht : taskTh s with
+    | none => simp [ht] at k
+    | some t => simp [ht, hf t ht] at k
+  · exact k
 
 /-- **A wait that starts after `stop()` does not park**: once a stop request has completed, a task thread that is not
     parked never parks again — whichever wait it enters next (`sleep`, `get_next_signal`, with or without timeout). -/
@@ -168,7 +185,7 @@ theorem released_with_stop_exception {sys : Sys} (h : sys ∈ waiterSystems) :
       | stop => simp only [hst] at e; exact ⟨rfl, e⟩
       | timeout => simp [hst] at e
   · intro hd hq
-    have r := g.2.2.2.2.2
+    have r := g.2.2.2.2.2.1
     simp only [releasedB, hd, hq, Bool.and_self, Bool.not_true, Bool.false_or] at r
     exact r
 
@@ -212,7 +229,7 @@ theorem loop_task_finalises :
     | crashed => simp [hst] at e
     | raised x => simp [hst] at e
   · intro hd hq
-    have r := g.2.2.2.2.2
+    have r := g.2.2.2.2.2.1
     simp only [releasedB, hd, hq, Bool.and_self, Bool.not_true, Bool.false_or] at r
     exact r
 
